@@ -31,6 +31,12 @@ Constructs == {
    <<"inferred-callable", <<Fun("app2", <<Param("g", "() -> Int", Absent)>>, "Int", <<>>, <<Expr(Call("g", <<>>))>>)>>, <<Def("c2", TRUE, "Int", Call("app2", <<Lam(<<>>, IntL(3))>>))>>>>,
    <<"bare-tuple-return", <<RawS("def bt() -> Tuple => ()")>>, <<PrintS(StrL("b"))>>>>,
    <<"bare-list-param",   <<RawS("def bl(x: List) => print(\"l\")")>>, <<PrintS(StrL("b"))>>>>,
+   \* a definition with a DECLARED type whose value is a block-form conditional: every branch gets the INFERRED type of the value as annotation
+   <<"block-if-union",    <<Class("Shape", <<>>, <<>>, <<>>, <<>>), Class("Circle", <<>>, <<Parent("Shape", <<>>)>>, <<>>, <<>>), Class("Square", <<>>, <<Parent("Shape", <<>>)>>, <<>>, <<>>)>>,
+                          <<Def("sh", TRUE, "Shape", IfEB(BoolL(TRUE), New("Circle", <<>>), New("Square", <<>>)))>>>>,
+   <<"block-if-any",      <<>>, <<Def("an", TRUE, "Any", IfEB(BoolL(TRUE), IntL(1), StrL("s")))>>>>,
+   <<"block-if-optional", <<>>, <<Def("op", TRUE, "Any", IfEB(BoolL(TRUE), FloatL("1.5"), NoneL))>>>>,
+   <<"block-if-tuple",    <<>>, <<Def("bt", TRUE, "Any", IfEB(BoolL(TRUE), TupL(<<IntL(1), StrL("s")>>), TupL(<<IntL(2), StrL("t")>>)))>>>>,
    \* the user's own imports next to a construct that needs the same module: plain, under an alias, single names under an alias
    <<"user-import-math+sqrt",        <<RawS("import math")>>,                         <<Def("r2", TRUE, "Float", Raw("sqrt 9.0"))>>>>,
    <<"user-import-math-alias+sqrt",  <<RawS("import math as m")>>,                    <<Def("r3", TRUE, "Float", Raw("sqrt 9.0"))>>>>,
